@@ -37,7 +37,10 @@ def harness_scen(sc, kind=None):
         obj["scale"] = sc["scale"]       # float metrics: amounts x scale (a power of two), observed values / scale
     if "base" in sc:
         obj["base"] = sc["base"]         # integer gauge: offset (wrapping) so that the scenario sits next to the i64 boundaries
-    return {"obj": obj, "threads": sc["threads"], "scripts": sc["scripts"], "budget": sc.get("budget", 3000)}
+    h = {"obj": obj, "threads": sc["threads"], "scripts": sc["scripts"], "budget": sc.get("budget", 3000)}
+    if "pre" in sc:
+        h["pre"] = sc["pre"]
+    return h
 
 
 def check_model(ctx, sc, label, workers=4):
@@ -56,8 +59,8 @@ def check_model(ctx, sc, label, workers=4):
     return r1
 
 
-def run_scenario(ctx, pid, exe, sc, label, stats, samples, oracle_mod, oracle_inv, model=True, nrandom=0, kinds=None, nproc=8):
-    r = check_model(ctx, sc, label)
+def run_scenario(ctx, pid, exe, sc, label, stats, samples, oracle_mod, oracle_inv, model=True, nrandom=0, kinds=None, nproc=8, check=True):
+    r = check_model(ctx, sc, label) if check else {"actions_never": []}
     stats["never"][label] = r["actions_never"]
     results = []
     kinds = kinds or [sc["kind"]]
@@ -76,6 +79,15 @@ def run_scenario(ctx, pid, exe, sc, label, stats, samples, oracle_mod, oracle_in
             results += res
             if res and len(samples) < 4:
                 samples.append({"scenario": label, "object": kind, "job": res[0]["id"], "schedule": res[0]["choices"][:40], "calls": res[0]["calls"], "final": res[0].get("fin")})
+    if sc.get("starve"):
+        # lock-freedom stress schedules: the victim's compare-exchange fails many times in a row (see harness mode "starve")
+        for kind in kinds:
+            jobs = [{"id": "%s-s%d" % (label, i), "mode": "starve", "victim": v, "rounds": r} for i, (v, r) in enumerate(sc["starve"])]
+            res = run_jobs(ctx, exe, harness_scen(sc, kind), jobs, "s" + label + kind, nproc=1)
+            for x in res:
+                x["kind"] = kind
+            results += res
+            stats["random"] += len(res)
     if nrandom:
         for kind in kinds:
             jobs = random_jobs(label + kind, nrandom, ctx.seed * 104729 + len(label + kind))
@@ -101,7 +113,7 @@ def run_scenario(ctx, pid, exe, sc, label, stats, samples, oracle_mod, oracle_in
     for x in results:
         if x.get("nonterm"):
             continue
-        h = {"calls": x["calls"], "final": x.get("fin", {})}
+        h = intify({"calls": x["calls"], "final": x.get("fin", {})})
         key = json.dumps(h, sort_keys=True)
         if key not in seen:
             seen[key] = (h, x)
@@ -173,7 +185,7 @@ def replay(pid, path):
     elif r.get("panics"):
         print("verdict: panic", r["panics"]); rc = 1
     else:
-        h = {"calls": r["calls"], "final": r.get("fin", {})}
+        h = intify({"calls": r["calls"], "final": r.get("fin", {})})
         if not ints_only(h):
             print("verdict: rejected (non-integral value)"); rc = 1
         else:
